@@ -34,6 +34,8 @@ def thin(ctx, states, heavy_cap):
     must = [i for i in heavy if len(states[i]["prog"]) <= 2]
     rest = [i for i in heavy if len(states[i]["prog"]) > 2]
     ctx.rng.shuffle(rest)
+    ctx.rng.shuffle(must)
+    must = must[: max(1, (2 * heavy_cap) // 3)]
     keep = set(must) | set(rest[: max(0, heavy_cap - len(must))])
     drop = set(heavy) - keep
     if drop:
